@@ -51,4 +51,3 @@ func VerifC15_ReclaimNoPingPong() {
 	vr.Observe("second", second)
 	vr.Assert(!(first && second), "C15.reclaim-never-accepted-both-ways")
 }
-
